@@ -99,7 +99,21 @@ func (r *resolver) ClientIP(fox.Context) (*net.IPAddr, error) {
 	return &net.IPAddr{IP: net.IPv4(10, 0, byte(r.id>>8), byte(r.id))}, nil
 }
 
-var resolvers = map[int]*resolver{}
+// resolvers whose value is the zero value of its type (a field-less struct such as clientip.RemoteAddr{}, a zero number): as
+// good a resolver as any other
+type zeroStructResolver struct{}
+
+func (zeroStructResolver) ClientIP(fox.Context) (*net.IPAddr, error) {
+	return &net.IPAddr{IP: net.IPv4(10, 0, 0, 5)}, nil
+}
+
+type zeroIntResolver int
+
+func (zeroIntResolver) ClientIP(fox.Context) (*net.IPAddr, error) {
+	return &net.IPAddr{IP: net.IPv4(10, 0, 0, 6)}, nil
+}
+
+var resolvers = map[int]fox.ClientIPResolver{5: zeroStructResolver{}, 6: zeroIntResolver(0)}
 
 func res(id int) fox.ClientIPResolver {
 	if id == 0 {
@@ -260,7 +274,7 @@ func checkAccessors(desc string, rte *fox.Route, pattern string, want state) err
 		if want.resolver == 0 && got != nil {
 			return fmt.Errorf("%sClientIPResolver() = %v, want none", desc, got)
 		}
-		if want.resolver != 0 && got != fox.ClientIPResolver(resolvers[want.resolver]) {
+		if want.resolver != 0 && got != resolvers[want.resolver] {
 			return fmt.Errorf("%sClientIPResolver() = %v, want resolver #%d", desc, got, want.resolver)
 		}
 	}
@@ -497,7 +511,7 @@ func genOpts(t *rapid.T, route bool, label string) []Opt {
 		case "ignore", "redirect":
 			o.On = gen.Chance(t, 2, 3, "on")
 		case "resolver":
-			o.ID = gen.IntR(t, 0, 4, "resolver")
+			o.ID = gen.IntR(t, 0, 6, "resolver")
 		case "mw":
 			o.ID = gen.IntR(t, 1, 99, "mw")
 		case "annot":
